@@ -5,7 +5,7 @@
 //! spelling (absolute path) and under the tape-chosen spelling.
 
 use simkernel::cli::{self, CliRun, FaultAction, FaultSpec, PlanSpec, Scratch};
-use simkernel::inputs::{extra_sibling, input_sets, InputSet};
+use simkernel::inputs::{extra_entries, input_sets, InputSet};
 use simkernel::serde_json::{json, Value};
 use simkernel::{Chooser, Report, Rng, Violation};
 use std::collections::{BTreeMap, HashMap, HashSet};
@@ -18,9 +18,10 @@ use zeep_lib::utils::read_input_file_and_xsd_files_at_path;
 const PROPERTY: &str = "C17";
 const ENGINE: &str = "os";
 
-const SPELLINGS: [&str; 6] = ["absolute", "relative-with-dir", "dot-slash", "bare-name", "dotdot-dir", "double-slash"];
+const SPELLINGS: [&str; 8] = ["absolute", "relative-with-dir", "dot-slash", "bare-name", "dotdot-dir", "double-slash", "dir-dot-name", "dir-sub-dotdot-name"];
 const OUTPUTS: [&str; 4] = ["default", "-o absolute same dir", "-o relative", "-o absolute other dir"];
-const PRE: [&str; 3] = ["absent", "shorter", "longer"];
+const PRE: [&str; 5] = ["absent", "shorter", "longer", "same-length", "longer-by-3"];
+const EXTRAS: [&str; 9] = ["none", "valid unrelated .xsd", "malformed .xsd", "non-schema .xsd", "40 unrelated files", "hidden .xsd", "upper-case .XSD", "empty .xsd", "directory named *.xsd"];
 
 /// (symbol, class, max index explored in seeded mode, actions)
 fn targets() -> Vec<(&'static str, &'static str, u64, Vec<FaultAction>)> {
@@ -31,10 +32,10 @@ fn targets() -> Vec<(&'static str, &'static str, u64, Vec<FaultAction>)> {
         ("open", "output", 1, vec![E(13), E(30), E(28), E(21), E(4)]),
         ("read", "input", 3, vec![E(5), E(4), S(1), S(100)]),
         ("read", "sibling", 8, vec![E(5), E(4), S(1), S(100)]),
-        ("write", "output", 700, vec![E(28), E(5), E(122), E(27), E(4), S(1), S(7)]),
+        ("write", "output", 700, vec![E(28), E(5), E(122), E(27), E(4), S(1), S(7), S(4096), S(65536)]),
         ("close", "output", 1, vec![E(5)]),
         // a tool that stages its output in a temporary file and renames it (none of these calls exist on HEAD)
-        ("write", "outtmp", 700, vec![E(28), E(5), E(4), S(1), S(7)]),
+        ("write", "outtmp", 700, vec![E(28), E(5), E(4), S(1), S(7), S(4096), S(65536)]),
         ("close", "outtmp", 1, vec![E(5)]),
         ("open", "outtmp", 1, vec![E(13), E(28)]),
         ("rename", "output", 1, vec![E(18), E(13), E(28), E(5)]),
@@ -67,6 +68,8 @@ struct Case {
     /// 0: regular files; 1: the sibling files are symbolic links into another directory; 2: the input directory is
     /// reached through a symbolic link
     link_style: u64,
+    /// the tool's stderr is /dev/full: every diagnostic write fails with ENOSPC
+    stderr_full: bool,
 }
 
 const NAME_STYLES: [&str; 3] = ["as-is", "two-dots", "blank-in-name"];
@@ -85,10 +88,10 @@ fn styled_start(start: &str, name_style: u64) -> String {
 
 fn decode_case(ch: &mut Chooser, nsets: usize) -> Case {
     let input = ch.choose("input", nsets as u64) as usize;
-    let spelling = ch.choose("spelling", 6);
+    let spelling = ch.choose("spelling", 8);
     let output = ch.choose("output", 4);
-    let pre = ch.choose("preexisting", 3);
-    let extra = ch.choose("extra_sibling", 4);
+    let pre = ch.choose("preexisting", 5);
+    let extra = ch.choose("extra_sibling", 9);
     let longflags = ch.choose("long_flags", 2) == 1;
     let entropy = ch.choose("entropy", u64::MAX);
     let dirperm = ch.choose("dirperm", u64::MAX);
@@ -103,7 +106,8 @@ fn decode_case(ch: &mut Chooser, nsets: usize) -> Case {
     };
     let name_style = ch.choose("name_style", 3);
     let link_style = ch.choose("link_style", 3);
-    Case { input, spelling, output, pre, extra, longflags, entropy, dirperm, fault, name_style, link_style }
+    let stderr_full = ch.choose("stderr_is_dev_full", 2) == 1;
+    Case { input, spelling, output, pre, extra, longflags, entropy, dirperm, fault, name_style, link_style, stderr_full }
 }
 
 fn encode_case(c: &Case) -> Vec<u64> {
@@ -116,7 +120,7 @@ fn encode_case(c: &Case) -> Vec<u64> {
     } else {
         t.push(0);
     }
-    t.extend([c.name_style, c.link_style]);
+    t.extend([c.name_style, c.link_style, u64::from(c.stderr_full)]);
     t
 }
 
@@ -171,8 +175,12 @@ fn materialise_styled(dir: &Path, set: &InputSet, extra: u64, name_style: u64, l
         }
         let _ = std::fs::write(dir.join(name), b);
     }
-    if let Some((n, b)) = extra_sibling(extra) {
-        let _ = std::fs::write(dir.join(n), b);
+    for (n, b, is_dir) in extra_entries(extra) {
+        if is_dir {
+            let _ = std::fs::create_dir_all(dir.join(n));
+        } else {
+            let _ = std::fs::write(dir.join(n), b);
+        }
     }
 }
 
@@ -221,6 +229,9 @@ fn snapshot(root: &Path) -> BTreeMap<String, u64> {
         if let Ok(rd) = std::fs::read_dir(&d) {
             for e in rd.flatten() {
                 let p = e.path();
+                if p.symlink_metadata().is_ok_and(|m| m.file_type().is_symlink()) && p.is_dir() {
+                    continue; // a linked directory is the same files again
+                }
                 if p.is_dir() {
                     stack.push(p);
                 } else if let Ok(b) = std::fs::read(&p) {
@@ -258,7 +269,12 @@ fn run_once(sets: &[InputSet], c: &Case, spelling: u64, expected: &Expected) -> 
         2 => (w.clone(), format!("./{start}")),
         3 => (w.clone(), start.clone()),
         4 => (w.clone(), format!("../{wname}/{start}")),
-        _ => (top.clone(), format!("{wname}//{start}")),
+        5 => (top.clone(), format!("{wname}//{start}")),
+        6 => (top.clone(), format!("{wname}/./{start}")),
+        _ => {
+            let _ = std::fs::create_dir_all(w.join("sub"));
+            (top.clone(), format!("{wname}/sub/../{start}"))
+        }
     };
     let stem_rs = Path::new(start).with_extension("rs").to_string_lossy().to_string();
     let (out_abs, out_arg): (PathBuf, Option<String>) = match c.output {
@@ -270,12 +286,16 @@ fn run_once(sets: &[InputSet], c: &Case, spelling: u64, expected: &Expected) -> 
     let pre_bytes = match c.pre {
         0 => None,
         1 => Some(sentinel(64)),
-        _ => {
-            let n = match expected {
-                Expected::Bytes(b) => b.len() + 4096,
+        k => {
+            let base = match expected {
+                Expected::Bytes(b) => b.len(),
                 _ => 200_000,
             };
-            Some(sentinel(n))
+            Some(sentinel(match k {
+                2 => base + 4096,
+                3 => base,
+                _ => base + 3,
+            }))
         }
     };
     if let Some(b) = &pre_bytes {
@@ -296,14 +316,16 @@ fn run_once(sets: &[InputSet], c: &Case, spelling: u64, expected: &Expected) -> 
         dirperm: c.dirperm,
         dirorder: vec![],
         faults: c.fault.iter().cloned().collect(),
+        stderr_full: c.stderr_full,
     };
     let run = cli::run_zeep(&top, &cwd, &args, &plan, "r");
     let out_after = std::fs::read(&out_abs).ok();
     let after = snapshot(&top);
     let out_rel = out_abs.strip_prefix(&top).unwrap_or(&out_abs).to_string_lossy().to_string();
     let mut stray = Vec::new();
+    let out_real = out_rel.replacen("wl/", "w/", 1); // the same file seen through the real directory
     for (k, v) in &after {
-        if k == &out_rel || k.starts_with("plan-") || k.starts_with("trace-") {
+        if k == &out_rel || k == &out_real || k.starts_with("plan-") || k.starts_with("trace-") {
             continue;
         }
         if before.get(k) != Some(v) {
@@ -311,7 +333,7 @@ fn run_once(sets: &[InputSet], c: &Case, spelling: u64, expected: &Expected) -> 
         }
     }
     for k in before.keys() {
-        if !after.contains_key(k) && k != &out_rel && !k.starts_with("plan-") && !k.starts_with("trace-") {
+        if !after.contains_key(k) && k != &out_rel && k != &out_real && !k.starts_with("plan-") && !k.starts_with("trace-") {
             stray.push(format!("deleted:{k}"));
         }
     }
@@ -473,7 +495,7 @@ fn case_json(sets: &[InputSet], c: &Case) -> Value {
         "input_set": sets[c.input].name, "stage": sets[c.input].stage, "start_file": sets[c.input].start,
         "files": sets[c.input].files.iter().map(|(n, b)| json!({"name": n, "bytes": b.len(), "hash": format!("{:016x}", simkernel::hash_bytes(b))})).collect::<Vec<_>>(),
         "spelling": SPELLINGS[c.spelling as usize], "output": OUTPUTS[c.output as usize], "preexisting_output": PRE[c.pre as usize],
-        "extra_sibling": extra_sibling(c.extra).map(|e| e.0), "long_flags": c.longflags, "start_file_name": styled_start(&sets[c.input].start, c.name_style), "name_style": NAME_STYLES[c.name_style as usize], "link_style": LINK_STYLES[c.link_style as usize],
+        "extra_entries": EXTRAS[c.extra as usize], "stderr": if c.stderr_full { "/dev/full" } else { "pipe" }, "long_flags": c.longflags, "start_file_name": styled_start(&sets[c.input].start, c.name_style), "name_style": NAME_STYLES[c.name_style as usize], "link_style": LINK_STYLES[c.link_style as usize],
         "entropy": format!("{:x}", c.entropy), "dirperm": c.dirperm,
         "fault": c.fault.as_ref().map(FaultSpec::describe),
     })
@@ -562,6 +584,7 @@ fn run_batch(sets: &[InputSet], tapes: &[Vec<u64>]) -> Stats {
                         }
                         if !r.stray_changes.is_empty() {
                             bump(&mut st.probes, "runs_with_stray_file_changes");
+                            bump(&mut st.probes, &format!("stray:{}", r.stray_changes[0].chars().take(40).collect::<String>()));
                         }
                         if !r.cli.success() && r.pre_bytes.is_some() {
                             if r.cli.output_write_fault_fired() {
@@ -575,6 +598,9 @@ fn run_batch(sets: &[InputSet], tapes: &[Vec<u64>]) -> Stats {
                         }
                         if r.cli.success() && c.pre == 2 {
                             bump(&mut st.probes, "successful_runs_over_longer_old_file");
+                        }
+                        if r.cli.success() && c.pre >= 3 {
+                            bump(&mut st.probes, "successful_runs_over_same_length_or_slightly_longer_old_file");
                         }
                     }
                     if res.expected == Expected::Unstable {
@@ -615,18 +641,18 @@ fn build_tapes(sets: &[InputSet], tier: &str, seed: u64) -> (Vec<Vec<u64>>, Valu
     let thorough = tier == "thorough";
     let mut tapes = Vec::new();
     // (1) configuration product without faults
-    let extras: Vec<u64> = if thorough { vec![0, 1, 2, 3] } else { vec![0, 2] };
+    let extras: Vec<u64> = if thorough { (0..9).collect() } else { vec![0, 2, 4, 8] };
     let mut n_cfg = 0u64;
     for input in 0..sets.len() {
-        for spelling in 1..6u64 {
+        for spelling in 1..8u64 {
             for output in 0..4u64 {
-                for pre in 0..3u64 {
+                for pre in 0..5u64 {
                     for extra in &extras {
                         // quick: thin out by a fixed rule; thorough: everything
-                        if !thorough && (input as u64 + spelling + output + pre + *extra) % 3 != 0 {
+                        if !thorough && (input as u64 * 7 + spelling * 5 + output * 3 + pre + *extra) % 7 != 0 {
                             continue;
                         }
-                        let c = Case { input, spelling, output, pre, extra: *extra, longflags: (spelling + output) % 2 == 1, entropy: 0, dirperm: if *extra == 2 { 7 } else { 0 }, fault: None, name_style: ((input as u64 + spelling) % 3) * u64::from((output + pre) % 2 == 0), link_style: ((spelling + pre + *extra) % 3) * u64::from((input as u64 + output) % 2 == 1) };
+                        let c = Case { input, spelling, output, pre, extra: *extra, longflags: (spelling + output) % 2 == 1, entropy: 0, dirperm: if *extra == 2 { 7 } else { 0 }, fault: None, name_style: ((input as u64 + spelling) % 3) * u64::from((output + pre) % 2 == 0), link_style: ((spelling + pre + *extra) % 3) * u64::from((input as u64 + output) % 2 == 1), stderr_full: (input as u64 + spelling + pre) % 5 == 0 };
                         tapes.push(encode_case(&c));
                         n_cfg += 1;
                     }
@@ -638,20 +664,20 @@ fn build_tapes(sets: &[InputSet], tier: &str, seed: u64) -> (Vec<Vec<u64>>, Valu
     let idx_of = |name: &str| sets.iter().position(|s| s.name == name);
     let mut scen = Vec::new();
     if let Some(i) = idx_of("tempconverter") {
-        scen.push(Case { input: i, spelling: 2, output: 0, pre: 2, extra: 0, longflags: false, entropy: 0, dirperm: 0, fault: None, name_style: 0, link_style: 0 });
+        scen.push(Case { input: i, spelling: 2, output: 0, pre: 2, extra: 0, longflags: false, entropy: 0, dirperm: 0, fault: None, name_style: 0, link_style: 0, stderr_full: false });
     }
     if let Some(i) = idx_of("chain") {
-        scen.push(Case { input: i, spelling: 1, output: 2, pre: 1, extra: 1, longflags: true, entropy: 0, dirperm: 3, fault: None, name_style: 1, link_style: 1 });
+        scen.push(Case { input: i, spelling: 1, output: 2, pre: 1, extra: 1, longflags: true, entropy: 0, dirperm: 3, fault: None, name_style: 1, link_style: 1, stderr_full: false });
     }
     if thorough {
         if let Some(i) = idx_of("hello") {
-            scen.push(Case { input: i, spelling: 4, output: 3, pre: 0, extra: 0, longflags: false, entropy: 0, dirperm: 0, fault: None, name_style: 0, link_style: 0 });
+            scen.push(Case { input: i, spelling: 4, output: 3, pre: 0, extra: 0, longflags: false, entropy: 0, dirperm: 0, fault: None, name_style: 0, link_style: 0, stderr_full: false });
         }
         if let Some(i) = idx_of("malformed-sibling") {
-            scen.push(Case { input: i, spelling: 5, output: 1, pre: 2, extra: 0, longflags: false, entropy: 0, dirperm: 0, fault: None, name_style: 0, link_style: 0 });
+            scen.push(Case { input: i, spelling: 5, output: 1, pre: 2, extra: 0, longflags: false, entropy: 0, dirperm: 0, fault: None, name_style: 0, link_style: 0, stderr_full: false });
         }
         if let Some(i) = idx_of("orders") {
-            scen.push(Case { input: i, spelling: 1, output: 0, pre: 2, extra: 3, longflags: false, entropy: 0, dirperm: 5, fault: None, name_style: 2, link_style: 2 });
+            scen.push(Case { input: i, spelling: 1, output: 0, pre: 2, extra: 3, longflags: false, entropy: 0, dirperm: 5, fault: None, name_style: 2, link_style: 2, stderr_full: true });
         }
     }
     let mut enumerated = Vec::new();
@@ -692,7 +718,7 @@ fn build_tapes(sets: &[InputSet], tier: &str, seed: u64) -> (Vec<Vec<u64>>, Valu
         }
         tapes.push(encode_case(&c));
     }
-    (tapes, json!({"configuration_product_cases": n_cfg, "configuration_dimensions": {"input_sets": sets.iter().map(|s| s.name.clone()).collect::<Vec<_>>(), "spellings": SPELLINGS, "outputs": OUTPUTS, "preexisting": PRE, "extra_siblings": extras, "name_styles": NAME_STYLES, "link_styles": LINK_STYLES, "name_and_link_style_in_product": "varied by a fixed rule across the product; all combinations occur in the seeded mixes"}, "per_call_index_fault_enumeration": enumerated, "seeded_cases": n_seeded, "configuration_product_complete": thorough}))
+    (tapes, json!({"configuration_product_cases": n_cfg, "configuration_dimensions": {"input_sets": sets.iter().map(|s| s.name.clone()).collect::<Vec<_>>(), "spellings": SPELLINGS, "outputs": OUTPUTS, "preexisting": PRE, "extra_entries": EXTRAS, "extra_entries_in_product": extras, "name_styles": NAME_STYLES, "link_styles": LINK_STYLES, "name_and_link_style_in_product": "varied by a fixed rule across the product; all combinations occur in the seeded mixes"}, "per_call_index_fault_enumeration": enumerated, "seeded_cases": n_seeded, "configuration_product_complete": thorough}))
 }
 
 fn main() {
